@@ -184,7 +184,7 @@ func newBufRun(mode bufMode) *bufRun {
 
 // producers draws and starts 1..maxProd producers.
 func (r *bufRun) producers(maxProd int) {
-	nProd := simrt.DrawRange(1, maxProd)
+	nProd := simrt.DrawRange(1, maxProd+simrt.Scale()-1)
 	r.single = nProd == 1
 	type plan struct {
 		batches []int
@@ -194,7 +194,7 @@ func (r *bufRun) producers(maxProd int) {
 	plans := make([]plan, nProd)
 	for p := range plans {
 		plans[p].reuse = simrt.Chance(1, 4)
-		for k := simrt.DrawRange(1, 4); k > 0; k-- {
+		for k := simrt.DrawRange(1, 4*simrt.Scale()); k > 0; k-- {
 			n := simrt.DrawRange(0, 3)
 			if simrt.Chance(1, 10) {
 				n = simrt.DrawRange(4, 40) // an occasional large batch
@@ -255,7 +255,7 @@ func (r *bufRun) producers(maxProd int) {
 
 // observer starts a task that takes Slice / Size snapshots at drawn moments.
 func (r *bufRun) observer() {
-	n := simrt.DrawRange(0, 6)
+	n := simrt.DrawRange(0, 6*simrt.Scale())
 	if n == 0 {
 		return
 	}
